@@ -353,6 +353,14 @@ func vfNewRegistryMap(hashMod int) *registryMap {
 	return newRegistryMap(true, hashMod, rt, vfLocks{})
 }
 
+// vfNewRegistryMapMode is vfNewRegistryMap with the access mode chosen by the caller (a
+// read-only map is what a reader transaction opens).
+func vfNewRegistryMapMode(hashMod int, readWrite bool) *registryMap {
+	rt := &replicationTracker{storesBaseFolders: []string{vfD.base}}
+	rt.ActiveFolderToggler = true
+	return newRegistryMap(readWrite, hashMod, rt, vfLocks{})
+}
+
 // vfIDForSlot returns a concrete id that hashes to block 0 (hashMod 1) and the given slot.
 func vfIDForSlot(slot int, salt byte) sop.UUID {
 	var id sop.UUID
